@@ -1,6 +1,6 @@
-(* Extract/ExtractC06.v — extraction of the cmap model (and, once written, the executable spec used
-   by the judge) to OCaml.  ExtrOcamlBasic only; Z/positive/nat stay Coq's inductives. *)
-From AV Require Import Base.Prelude Gen.MacRomanTables Gen.CmapPrefs Model.MacRoman Model.Cmap.
+(* Extract/ExtractC06.v — extraction of the cmap model (and the executable part of the
+   specification used by the judge: spec_find_good) to OCaml.  ExtrOcamlBasic only; Z/positive/nat stay Coq's inductives. *)
+From AV Require Import Base.Prelude Gen.MacRomanTables Gen.CmapPrefs Model.MacRoman Model.Cmap Model.CmapSpec.
 Require Import ExtrOcamlBasic.
 Extraction Language OCaml.
 
@@ -15,4 +15,5 @@ Extraction "../ocaml/c06/model.ml"
   z_add z_mul z_opp z_div_eucl z_ltb z_eqb
   parse map_glyph owned_map_glyph mappings
   parse_cmap find_good_cmap_subtable charmap_info font_lookup
-  char_to_macroman macroman_to_char.
+  char_to_macroman macroman_to_char
+  spec_find_good.
